@@ -100,6 +100,7 @@ class Runner:
         With expect_violation=name the counterexample trace is returned (known-finding witness)."""
         tag = '%s/%s_%s' % (self.prop, module, cfg.replace('.cfg', ''))
         r = tlc.check(module, cfg, tag, coverage=bool(required_actions), **kw)
+        self.tlc_last = r
         self.states += r.distinct
         self.transitions += r.generated
         self.tlc_runs.append({'module': module, 'cfg': cfg, 'distinct': r.distinct, 'generated': r.generated,
@@ -121,62 +122,59 @@ class Runner:
         return r
 
     # ----- replay ------------------------------------------------------------
-    def replay(self, driver, behaviours, module, origin, sample_every=0):
-        """step every behaviour through the driver; returns number of divergent behaviours"""
+    def replay(self, driver, behaviours, module, origin, parallel=0, factory=None, factory_kw=None):
+        """step every behaviour through the driver (serially, or over `parallel` processes with
+        drivers built by factory(**factory_kw)); returns number of divergent behaviours"""
+        results = []
+        if parallel and len(behaviours) >= 2 * parallel and factory is not None:
+            import multiprocessing as mp
+            chunks = [[] for _ in range(parallel * 4)]
+            for i, beh in enumerate(behaviours):
+                chunks[i % len(chunks)].append((i, beh))
+            ctx = mp.get_context('fork')
+            with ctx.Pool(parallel) as pool:
+                for out, stats in pool.imap_unordered(_worker, [(factory, factory_kw or {}, ch) for ch in chunks if ch]):
+                    results.extend(out)
+                    for k, v in stats.items():
+                        self.extra[k] = self.extra.get(k, 0) + v
+            results.sort(key=lambda x: x[0])
+        else:
+            for i, beh in enumerate(behaviours):
+                results.append((i,) + run_behaviour(driver, beh))
+            if hasattr(driver, 'stats'):
+                for k, v in driver.stats().items():
+                    self.extra[k] = self.extra.get(k, 0) + v
         bad = 0
-        for bi, beh in enumerate(behaviours):
-            ok = self.replay_one(driver, beh, module, origin)
-            if not ok:
+        for i, status, step, info, ops, known in results:
+            beh = behaviours[i]
+            self.behaviours += 1
+            self.steps += step
+            for k, v in ops.items():
+                self.actions_seen[k] = self.actions_seen.get(k, 0) + v
+            for fid, what in known:
+                if not self.findings.is_open(fid):
+                    status, info = 'div', {'field': 'known-finding', 'expected': 'finding %s listed as open' % fid,
+                                           'observed': what, 'note': ''}
+                else:
+                    self.known_seen.setdefault(fid, what)
+            if status == 'div':
                 bad += 1
-                if bad >= 5:
-                    self.notes.append('%s/%s: stopped after 5 divergent behaviours' % (module, origin))
-                    break
-            if len(self.samples) < 3 and len(beh) > 2 and (bi % 7 == 0):
+                if bad <= 5:
+                    path = self.write_replay({'kind': 'replay', 'module': module, 'origin': origin, 'step': step,
+                                              'divergence': info,
+                                              'behaviour': [{'label': l, 'state_tla': {k: to_tla(v) for k, v in s.items()}}
+                                                            for l, s in beh[:step + 1]]})
+                    self.violation(path, 'step %d (%s): %s expected=%s observed=%s' % (
+                        step, beh[min(step, len(beh) - 1)][0], info['field'], str(info['expected'])[:300], str(info['observed'])[:300]))
+            if len(self.samples) < 3 and len(beh) > 2 and (i % 7 == 0):
                 self.samples.append({'module': module, 'origin': origin,
                                      'ops': [tlaval.to_json(s.get('last', l)) for l, s in beh[1:8]]})
+        if bad > 5:
+            self.notes.append('%s/%s: %d divergent behaviours, first 5 reported' % (module, origin, bad))
         return bad
 
     def replay_one(self, driver, beh, module, origin):
-        self.behaviours += 1
-        step = -1
-        try:
-            for step, (label, state) in enumerate(beh):
-                lst = state.get('last')
-                name = lst['op'] if isinstance(lst, dict) and 'op' in lst else label.split('(')[0]
-                self.actions_seen[name] = self.actions_seen.get(name, 0) + 1
-                try:
-                    if step == 0:
-                        driver.reset(state)
-                    else:
-                        driver.step(label, state)
-                except Known as k:
-                    if not self.findings.is_open(k.fid):
-                        raise Divergence('known-finding', 'finding %s is not listed as open' % k.fid, k.what)
-                    self.known_seen.setdefault(k.fid, k.what)
-                    # state of the real object is no longer the spec's: stop this behaviour here
-                    self.steps += step
-                    return True
-            self.steps += len(beh) - 1
-            return True
-        except Divergence as d:
-            info = {'field': d.field, 'expected': tlaval.to_json(d.expected) if not isinstance(d.expected, str) else d.expected,
-                    'observed': _j(d.observed), 'note': d.note}
-        except tlc.TLCError:
-            raise
-        except Exception as e:  # unexpected exception escaping the real code
-            info = {'field': 'exception', 'expected': 'no exception', 'observed': repr(e),
-                    'note': traceback.format_exc()[-1500:]}
-        finally:
-            try:
-                driver.cleanup()
-            except Exception:
-                pass
-        path = self.write_replay({'kind': 'replay', 'module': module, 'origin': origin, 'step': step, 'divergence': info,
-                                  'behaviour': [{'label': l, 'state_tla': {k: to_tla(v) for k, v in s.items()}}
-                                                for l, s in beh[:step + 1]]})
-        self.violation(path, 'step %d (%s): %s expected=%s observed=%s' % (
-            step, beh[step][0], info['field'], str(info['expected'])[:200], str(info['observed'])[:200]))
-        return False
+        return self.replay(driver, [beh], module, origin) == 0
 
     # ----- verdicts ----------------------------------------------------------
     def write_replay(self, obj):
@@ -226,6 +224,51 @@ class Runner:
             'FAIL' if self.violations else 'OK', self.prop, self.tier, self.seed, self.states, self.transitions,
             self.behaviours, self.steps, self.traces, time.time() - self.t0, len(self.violations)))
         return 1 if self.violations else 0
+
+
+def run_behaviour(driver, beh):
+    """-> (status 'ok'|'div', steps done / failing step, divergence info, ops seen, known findings hit)"""
+    ops, known = {}, []
+    step = -1
+    try:
+        try:
+            for step, (label, state) in enumerate(beh):
+                lst = state.get('last')
+                name = lst['op'] if isinstance(lst, dict) and 'op' in lst else label.split('(')[0]
+                ops[name] = ops.get(name, 0) + 1
+                try:
+                    if step == 0:
+                        driver.reset(state)
+                    else:
+                        driver.step(label, state)
+                except Known as k:
+                    known.append((k.fid, k.what))
+                    # the real object no longer follows the spec state: stop this behaviour here
+                    return 'ok', step, None, ops, known
+            if hasattr(driver, 'finish'):
+                driver.finish(beh[-1][1])
+            return 'ok', len(beh) - 1, None, ops, known
+        finally:
+            try:
+                driver.cleanup()
+            except Exception:
+                pass
+    except Divergence as d:
+        info = {'field': d.field, 'expected': d.expected if isinstance(d.expected, str) else _j(d.expected),
+                'observed': _j(d.observed), 'note': d.note}
+    except tlc.TLCError:
+        raise
+    except Exception as e:  # unexpected exception escaping the real code or the driver
+        info = {'field': 'exception', 'expected': 'no exception', 'observed': repr(e),
+                'note': traceback.format_exc()[-1500:]}
+    return 'div', max(step, 0), info, ops, known
+
+
+def _worker(args):
+    factory, kw, items = args
+    drv = factory(**kw)
+    out = [(i,) + run_behaviour(drv, beh) for i, beh in items]
+    return out, (drv.stats() if hasattr(drv, 'stats') else {})
 
 
 def _j(v):
